@@ -163,3 +163,11 @@ let () =
       vsteps (SmlTT.sml_run (SmlTT.gen_sml true (table_of t)) (strs evs) (gv_of bits)) | _ -> failwith "arity");
   register "camel_interp_quiet" (function [t; evs; bits] ->
       vsteps (SmlTT.camel_steps (TableInterp.table_interp_quiet (table_of t) (strs evs) (gv_of bits))) | _ -> failwith "arity")
+
+
+let () =
+  register "cs_threaded" (function [t; evs; bits; sched] ->
+      let t = table_of t in
+      let s = CsThreads.trun t (gv_of bits) (List.map (fun b -> b = "1") (strs sched)) (CsThreads.tinit t (strs evs)) in
+      L [vsteps s.CsThreads.t_out; vint (List.length s.CsThreads.t_q); vint (List.length s.CsThreads.t_pend)]
+    | _ -> failwith "arity")
